@@ -126,8 +126,13 @@ def run_check(pid, tier, seed):
         ctx.proofs = proofs
         if not proofs['ok']:
             broken.append({'what': 'proof', 'detail': proofs['error']})
-            run_vo = os.path.join(env.THEORIES, pid, 'Run.vo')
-            ctx.model_available = os.path.exists(run_vo) and ctx.gen_ok
+            # the executable model (Run.v and what it imports) must not depend on the proofs: try to build it alone
+            run_v = os.path.join(env.THEORIES, pid, 'Run.v')
+            ok_run = False
+            if ctx.gen_ok and os.path.exists(run_v):
+                ok_run, _ = coq.make([os.path.relpath(run_v, env.COQ) + 'o'], tag=pid,
+                                     dirs=['Common'] + list(getattr(H, 'DEPS', ())) + [pid])
+            ctx.model_available = ok_run
         try:
             explore = H.explore(ctx) or {}
         except Exception as e:  # noqa: BLE001
